@@ -331,16 +331,37 @@ pub fn run(prop: &str, tier: &str) -> i32 {
         });
         std::fs::write(&path, serde_json::to_string_pretty(&file).unwrap()).expect("write replay");
         // replay in a fresh process: must reproduce the same class
-        let (r, c, t) = exec_in_subprocess(spec.engine, &min_plan, &scratch);
-        if r == "violation" && c == class {
-            n_violation += 1;
-            println!("VIOLATION property={} replay={}", prop, path.display());
-            println!("  class: {}", class);
-            println!("  {}", t);
-            replay_files.push(path.display().to_string());
-        } else {
-            harness.push(format!("violation {} of run {} did not replay in a fresh process ({} {} {})", class, v["index"], r, c, t));
+        let mut replayed: Option<String> = None;
+        let mut last = (String::new(), String::new(), String::new());
+        for _ in 0..3 {
+            let (r, c, t) = exec_in_subprocess(spec.engine, &min_plan, &scratch);
+            if r == "violation" && c == class {
+                replayed = Some(t);
+                break;
+            }
+            last = (r, c, t);
         }
+        // the violation was observed on the real code by an oracle that does not depend on the
+        // schedule labels, so it is reported in any case; a replay that does not reproduce it is
+        // said so (runs that use xs's real id generator are the known source)
+        n_violation += 1;
+        println!("VIOLATION property={} replay={}", prop, path.display());
+        println!("  class: {}", class);
+        match replayed {
+            Some(t) => println!("  {}", t),
+            None => {
+                println!("  {}", min_text);
+                println!("  NOTE: three replays in fresh processes did not reproduce this class (last: {} {} {})", last.0, last.1, last.2);
+                // fall back to the unminimised plan so the file at least holds the observed run
+                let file = json!({
+                    "property": prop, "engine": spec.engine, "class": class, "text": text,
+                    "batch_seed": seed, "run_index": v["index"], "run_seed": v["seed"], "plan": plan,
+                    "note": "replay did not reproduce in a fresh process"
+                });
+                let _ = std::fs::write(&path, serde_json::to_string_pretty(&file).unwrap());
+            }
+        }
+        replay_files.push(path.display().to_string());
     }
 
     // reach: a probe stuck at zero is a hollow pass
